@@ -1041,7 +1041,9 @@ fn drive(d: &Dispatch, log: &Log, tab: &[&'static Cs], ops: &[Op]) {
     // `std::thread::panicking()` are notifications like any other. Which operations: a function
     // of the workload alone, so the reference and the variant stack get the same treatment.
     let sel = vlib::rng::hash_str(&format!("{ops:?}"));
-    let unwinding = |k: usize| sel % 2 == 0 && (sel >> 8).wrapping_add(k as u64).wrapping_mul(0x9E37_79B9_7F4A_7C15) >> 61 == 0;
+    // (not on builds with debug assertions: there the known finding F3 is an assertion failure,
+    // which inside a destructor that runs during unwinding aborts the process)
+    let unwinding = |k: usize| !cfg!(debug_assertions) && sel % 2 == 0 && (sel >> 8).wrapping_add(k as u64).wrapping_mul(0x9E37_79B9_7F4A_7C15) >> 61 == 0;
     for (k, op) in ops.iter().enumerate() {
         log.op(format!("{k}:{op:?}"));
         if unwinding(k) {
@@ -2704,6 +2706,23 @@ fn witness(cmp: &Cmp, tab: &Table, p: &Problem, a: &RunOut, b: Option<&RunOut>, 
     w
 }
 
+/// Known finding F3 on a build with debug assertions: an interaction in which a per-layer filter
+/// answered reject and which ended before any on_event / on_new_span (an `enabled!` probe, an
+/// emission vetoed by somebody's event_enabled) leaves that filter's bit set, and FilterState's
+/// debug assertions fail at a LATER operation of the same thread.
+fn f3_debug_assertion(r: &RunOut) -> bool {
+    let Some(p) = &r.panic else { return false };
+    if !cfg!(debug_assertions) || !p.contains("FilterMap { disabled_by") || r.segs.len() < 2 {
+        return false;
+    }
+    r.segs[..r.segs.len() - 1].iter().any(|seg| {
+        let rejected = seg.ents.iter().any(|e| matches!(e.who, Who::Filter(_)) && matches!(e.m, M::Enabled | M::EvEnabled) && e.ret == Some(0));
+        let delivered = seg.ents.iter().any(|e| matches!(e.who, Who::Layer(_)) && matches!(e.m, M::Event | M::NewSpan));
+        rejected && !delivered
+    })
+}
+const F3_WHAT: &str = "enabled!/log_enabled! probes and events vetoed by a global layer's event_enabled leave per-layer filter bits set (C07's finding); on a build with debug assertions FilterState's assertions fail at a later operation of the thread";
+
 /// returns false if the process must stop (panic inside a run)
 fn run_cmp(cmp: &Cmp, tab: &Table, proc_: &mut Proc, st: &mut Stats, out: &mut Out, idx: &str) -> bool {
     let ra = run_stack(&cmp.reference, &tab.a, &tab.pre, &cmp.ops, proc_.retired_for(&tab.pre));
@@ -2728,6 +2747,14 @@ fn run_cmp(cmp: &Cmp, tab: &Table, proc_: &mut Proc, st: &mut Stats, out: &mut O
         }
     }
     for (side, r, spec) in [("reference", &ra, &cmp.reference), ("variant", &rb, &cmp.variant)] {
+        if f3_debug_assertion(r) {
+            // the run's thread (and its thread-local filter state) is gone: the process goes on
+            st.count("dbg_runs_ended_by_the_F3_debug_assertion", 1);
+            out.finding("F3", F3_WHAT, json!({"comparison": cmp.name, "index": idx, "stack": spec.show(&tab.classes), "panic": r.panic,
+                "ops": cmp.ops.iter().map(|o| format!("{o:?}")).collect::<Vec<_>>(),
+                "log_tail": r.segs.last().map(|s| json!({"op": s.op, "log": s.ents.iter().map(|e| e.show()).collect::<Vec<_>>()}))}));
+            return true;
+        }
         if let Some(p) = &r.panic {
             out.violation(
                 format!("panic while building/driving the {side} stack: {p}"),
@@ -2882,6 +2909,12 @@ fn run_single(name: &str, spec: &StackSpec, tab: &Table, ops: &[Op], proc_: &mut
     st.count("ops_driven", ops.len() as u64);
     st.count("callbacks_recorded", ra.raw_len as u64);
     let cmp = Cmp { name: name.to_string(), reference: spec.clone(), variant: spec.clone(), ops: ops.to_vec() };
+    if f3_debug_assertion(&ra) {
+        st.count("dbg_runs_ended_by_the_F3_debug_assertion", 1);
+        out.finding("F3", F3_WHAT, json!({"comparison": name, "index": idx, "stack": spec.show(&tab.classes), "panic": ra.panic,
+            "ops": ops.iter().map(|o| format!("{o:?}")).collect::<Vec<_>>()}));
+        return true;
+    }
     if let Some(p) = &ra.panic {
         out.violation(
             format!("panic while building/driving the tree-shaped stack: {p}"),
@@ -2920,14 +2953,34 @@ fn run_single(name: &str, spec: &StackSpec, tab: &Table, ops: &[Op], proc_: &mut
 fn child(args: &Args) {
     let thorough = args.tier == vlib::Tier::Thorough;
     let mut out = Out::new();
+    out.set("debug_assertions", if cfg!(debug_assertions) { "true" } else { "false" });
     let mut st = Stats::default();
     let mut proc_ = Proc::new();
     let sys = sys_cases(thorough);
     let nrand = args.get_u64("random", args.tier.pick(120_000, 1_000_000));
     let only = args.get("only").map(|s| s.to_string());
     let mut alive = true;
+    // `limit=n` (interpreter / sanitizer layers): n cases of each of the four groups, picked by
+    // (seed, shard) instead of the shard's whole residue class
+    let limit = args.get_u64("limit", 0);
+    let mut pick_rng = Rng::derive(args.seed ^ 0x11317, 9, args.shard);
+    let mut picked = |n: u64| -> Option<std::collections::HashSet<u64>> {
+        if limit == 0 || n == 0 {
+            return None;
+        }
+        Some((0..limit).map(|_| pick_rng.below(n)).collect())
+    };
+    let sel_sys = picked(sys.len() as u64);
+    let sel_rand = picked(nrand);
     for (i, c) in sys.iter().enumerate() {
-        if !alive || i as u64 % args.nshards != args.shard {
+        if let Some(sel) = &sel_sys {
+            if !sel.contains(&(i as u64)) {
+                continue;
+            }
+        } else if i as u64 % args.nshards != args.shard {
+            continue;
+        }
+        if !alive {
             continue;
         }
         let idx = format!("s{i}");
@@ -2940,8 +2993,12 @@ fn child(args: &Args) {
         st.count("systematic_comparisons", 1);
         alive = run_cmp(&cmp, &tab, &mut proc_, &mut st, &mut out, &idx);
     }
-    for j in 0..nrand {
-        if !alive || j % args.nshards != args.shard {
+    let rand_js: Vec<u64> = match &sel_rand {
+        Some(sel) => sel.iter().copied().collect(),
+        None => (0..nrand).filter(|j| j % args.nshards == args.shard).collect(),
+    };
+    for j in rand_js {
+        if !alive {
             continue;
         }
         let idx = format!("r{j}");
@@ -2956,8 +3013,16 @@ fn child(args: &Args) {
         alive = run_cmp(&cmp, &tab, &mut proc_, &mut st, &mut out, &idx);
     }
     let trees = tree_cases(thorough);
+    let sel_tree = picked(trees.len() as u64);
     for (i, c) in trees.iter().enumerate() {
-        if !alive || i as u64 % args.nshards != args.shard {
+        if let Some(sel) = &sel_tree {
+            if !sel.contains(&(i as u64)) {
+                continue;
+            }
+        } else if i as u64 % args.nshards != args.shard {
+            continue;
+        }
+        if !alive {
             continue;
         }
         let idx = format!("t{i}");
@@ -2985,8 +3050,13 @@ fn child(args: &Args) {
         alive = run_single(&format!("tree {:?}", c), &spec, &tab, &rich_ops(), &mut proc_, &mut st, &mut out, &idx);
     }
     let ntree = args.get_u64("random_trees", args.tier.pick(6_000, 60_000));
-    for j in 0..ntree {
-        if !alive || j % args.nshards != args.shard {
+    let sel_rtree = picked(ntree);
+    let tree_js: Vec<u64> = match &sel_rtree {
+        Some(sel) => sel.iter().copied().collect(),
+        None => (0..ntree).filter(|j| j % args.nshards == args.shard).collect(),
+    };
+    for j in tree_js {
+        if !alive {
             continue;
         }
         let idx = format!("u{j}");
@@ -3040,6 +3110,36 @@ fn parent(args: &Args) {
     let ncells = out.sets.get("cells").map(|s| s.len()).unwrap_or(0);
     let mut extra = Map::new();
     extra.insert("distinct_cells_method_x_wrapper".into(), json!(ncells));
+    vlib::sanlayer::run_layers(ID, args, &mut out, &mut extra);
+    // thorough: the same workload on a build with the repository's debug assertions live
+    // (FilterState's debug counters turn inconsistent per-layer-filter bookkeeping into a panic)
+    if let Ok(p) = std::env::var("VERIF_C09_DBG_BIN") {
+        if !p.is_empty() {
+            let mut dbg = Out::new();
+            let dshards = args.get_u64("dbg_shards", args.tier.pick(64, 640));
+            let mut dspec = ChildSpec::new("mix", dshards).arg("dbg", 1).timeout(1800);
+            if let Some(r) = args.get("random") {
+                dspec = dspec.arg("random", r);
+            }
+            if let Some(r) = args.get("random_trees") {
+                dspec = dspec.arg("random_trees", r);
+            }
+            dspec.exe = Some(std::path::PathBuf::from(&p));
+            let ends = run::run_children(args, &dspec, &mut dbg);
+            run::classify_ends(&ends, &mut dbg, true);
+            if !dbg.sets.get("debug_assertions").map(|s| s.contains("true") && s.len() == 1).unwrap_or(false) {
+                out.harness_errors.push(format!("VERIF_C09_DBG_BIN={p} is not a debug-assertions build (or produced nothing)"));
+            }
+            extra.insert("debug_assertion_build".into(), json!({"binary": p, "evaluations": dbg.evals, "distinct": dbg.distinct.len(), "comparisons": dbg.counters.get("comparisons")}));
+            let v = dbg.to_json();
+            let evals = out.evals + dbg.evals;
+            out.merge_json(&json!({"viols": v["viols"], "known": v["known"], "inconclusive": v["inconclusive"], "harness_errors": v["harness_errors"]}));
+            out.evals = evals;
+            for h in dbg.distinct {
+                out.distinct.insert(h ^ 0x0dbd_0dbd);
+            }
+        }
+    }
     run::finish(
         Finish {
             id: ID,
